@@ -39,6 +39,10 @@ def classify(chk, s, r, an, findings):
             aid = cause[1]
             wid = actor_wid(r["impl"], aid)
             sig = f3_signature(s, r, wid) if wid is not None else None
+            if wid is None:
+                # the actor never started a job, so the log does not show its worker: try the workers with a stale completion
+                for pair in r["stale"]:
+                    sig = sig or f3_signature(s, r, pair[1], job_key(s, j))
             if sig:
                 return "known", ("F3", "a stale Finished(w,k) of a dead incarnation is taken for the replacement's same-key job; "
                                        "the replacement then holds two jobs and its death (or stop) loses more than one; "
